@@ -127,6 +127,13 @@ CHECKS = {
         "Reference adjacency (boundary = side owned by one cell) in mc/props/c15.py.",
         "DESIGN.md 5 C15",
     ),
+    "C13": (
+        "exploration",
+        "exhaustive enumeration of a finite table of optimisation runs on the real optimizer: grids (2 / 2x2x1 / 2x2x2 boxes, 2x2 / 3x3 mapped sketches) x jitter levels incl. near-degenerate x clamp sets of every clamp type x link types x 4 minimisation methods x 1..3 iterations x frames, with every optimize_clamp call wrapped to snapshot the point array",
+        "Summed quality never rises (overall and per optimize_clamp call); a call that does not improve leaves the point array exactly as before (rollback, nothing half-applied); vertices without clamp/link are bit-identical; clamped vertices lie on their manifold within bounds; followers keep the link relation; mesh vertices / sketch points equal the optimizer's final positions.",
+        "The smallest alphabet of all properties (each run costs 0.1-4 s); scipy's minimisers are opaque; set iteration order fixed to insertion order.",
+        "DESIGN.md 5 C13",
+    ),
     "C02": (
         "model_checking",
         "stateless model checking of the implementation: choice-point explorer over set iteration orders (iterative deviation bounding) x exhaustive insertion orders / corner numberings / chop placements of small lattice assemblies, edge-family reference model",
